@@ -20,6 +20,8 @@ mod ast;
 mod builtins;
 mod eval;
 mod lexer;
+#[cfg(seed_verif)]
+mod verif;
 
 use lalrpop_util::ParseError;
 use snafu::ResultExt;
@@ -50,6 +52,9 @@ lalrpop_mod!(
 );
 
 fn main() {
+    #[cfg(seed_verif)]
+    verif::init();
+
     let mut args = std::env::args();
     let prog =
         match args.next() {
@@ -102,8 +107,12 @@ fn main() {
                 },
             };
         eprintln!("{raw_cur_rel_script_path}:{msg}");
+        #[cfg(seed_verif)]
+        verif::exit(103);
         process::exit(103);
     }
+    #[cfg(seed_verif)]
+    verif::exit(0);
 }
 
 fn run(cur_rel_script_path: &Path) -> Result<(), Error> {
@@ -122,6 +131,9 @@ fn run(cur_rel_script_path: &Path) -> Result<(), Error> {
         ),
     ];
 
+    #[cfg(seed_verif)]
+    verif::dump_tokens(&src);
+
     let mut scopes = ScopeStack::new(vec![]);
     let lexer = Lexer::new(&src);
     let ast =
@@ -133,6 +145,13 @@ fn run(cur_rel_script_path: &Path) -> Result<(), Error> {
                 return Err(Error::ParseFailed{src: e});
             },
         };
+
+    #[cfg(seed_verif)]
+    verif::dump_ast(&ast);
+    #[cfg(seed_verif)]
+    if verif::parse_only() {
+        return Ok(());
+    }
 
     eval::eval_prog(
         &EvaluationContext{
